@@ -5,8 +5,8 @@
 (* the next entry of the node, else climbs to the parent and searches there.   *)
 (* Checked against the cursor of AbsCursor (C08).                              *)
 EXTENDS BT, AbsCursor
-VARIABLES it, pos, ret     \* it = [position, node, key]
-ivars == <<T, last, it, pos, ret>>
+VARIABLES it, pos, ret, stale     \* it = [position, node, key]
+ivars == <<T, last, it, pos, ret, stale>>
 Seq0 == IF T.root = Nil THEN <<>> ELSE InOrder(T, T.root)
 RECURSIVE LeftLeaf(_, _), RightLeaf(_, _), ClimbN(_, _, _), ClimbP(_, _, _)
 LeftLeaf(t, x) == IF IsLeaf(t, x) THEN x ELSE LeftLeaf(t, C(t, x)[1])
@@ -38,21 +38,25 @@ PrevIt(t, i) ==
        ELSE IF e - 1 >= 0 THEN Btw(i.node, E(t, i.node)[e])
        ELSE ClimbP(t, i.node, i.key)
 Pr == [name |-> "true", m |-> 0, r |-> 0, i |-> 0]
-IInit == Init /\ it = [position |-> "closed", node |-> Nil, key |-> 0] /\ pos = -1 /\ ret = FALSE
-Build == it.position = "closed" /\ Next /\ UNCHANGED <<it, pos, ret>>
-Open == it.position = "closed" /\ it' = AtBegin /\ pos' = -1 /\ ret' = FALSE /\ UNCHANGED <<T, last>>
+IInit == Init /\ it = [position |-> "closed", node |-> Nil, key |-> 0] /\ pos = -1 /\ ret = FALSE /\ stale = FALSE
+Build == it.position = "closed" /\ Next /\ UNCHANGED <<it, pos, ret, stale>>
+Open == it.position = "closed" /\ it' = AtBegin /\ pos' = -1 /\ ret' = FALSE /\ UNCHANGED <<T, last, stale>>
 Opened == it.position # "closed"
-Do(op, j) == /\ Opened /\ it' = j /\ pos' = Move(Seq0, pos, op, Pr)
-             /\ ret' = (j.position = "between") /\ UNCHANGED <<T, last>>
-INext == \/ Build \/ Open
+\* kept iterators (DESIGN 14.4, as in RBTIter): the tree is modified while the iterator exists; only the absolute jumps are
+\* specified (and modelled) from a stale iterator, and they anchor it again
+Absolute(op) == op \in {"Begin", "End", "First", "Last"}
+Mutate == Opened /\ Next /\ stale' = TRUE /\ UNCHANGED <<it, pos, ret>>
+Do(op, j) == /\ Opened /\ (~stale \/ Absolute(op)) /\ it' = j /\ pos' = Move(Seq0, pos, op, Pr)
+             /\ ret' = (j.position = "between") /\ stale' = FALSE /\ UNCHANGED <<T, last>>
+INext == \/ Build \/ Open \/ Mutate
          \/ Do("Next", NextIt(T, it)) \/ Do("Prev", PrevIt(T, it))
          \/ Do("Begin", AtBegin) \/ Do("End", AtEnd)
          \/ Do("First", NextIt(T, AtBegin)) \/ Do("Last", PrevIt(T, AtEnd))
 ISpec == IInit /\ [][INext]_ivars
-CursorInv == Opened =>
+CursorInv == (Opened /\ ~stale) =>
    /\ (it.position = "between") = Inside(Seq0, pos)
    /\ (it.position = "between" => it.key = Seq0[pos + 1][1] /\ \E j \in DOMAIN E(T, it.node) : E(T, it.node)[j][1] = it.key)
    /\ (it.position = "begin" => pos = -1) /\ (it.position = "end" => pos = Len(Seq0))
    /\ (ret => Inside(Seq0, pos))
-IView == <<Canon(T, T.root), it.position, it.key, pos>>
+IView == IF stale THEN <<Canon(T, T.root), "stale", 0, 0>> ELSE <<Canon(T, T.root), it.position, it.key, pos>>
 =============================================================================
